@@ -302,6 +302,12 @@ func main() {
 			cands := loopIndexTerms(asserts)
 			asserts = append(asserts, instantiate(append(append([]*Term{}, o.PC...), flattenAnd(neg)...), cands)...)
 		}
+		// hypotheses quantified over objects (allold / allrefs) are needed at the objects the function
+		// was given: instantiate them at the pointer-like inputs, and their inner index quantifier at
+		// the skolems and loop counters
+		if os.Getenv("GOVC_NOPTRINST") == "" {
+			asserts = append(asserts, instantiateObjs(o.PC, o.Inputs, append(append([]*Term{}, sks...), loopIndexTerms(asserts)...))...)
+		}
 		var gv []*Term
 		if o.Kind != "cover" {
 			gv = append(append(append([]*Term{}, o.Inputs...), sks...), heapReads(asserts)...)
@@ -608,6 +614,87 @@ func instantiate(pc []*Term, sks []*Term) []*Term {
 			}
 		}
 	}
+	return out
+}
+
+func instantiateObjs(pc []*Term, inputs []*Term, idx []*Term) []*Term {
+	var ptrs []*Term
+	for _, in := range inputs {
+		if in.Sort == SInt && in.Op == "var" && !strings.Contains(strings.TrimPrefix(in.Name, "in$"), "$") && len(ptrs) < 8 {
+			ptrs = append(ptrs, in)
+		}
+	}
+	if len(ptrs) == 0 {
+		return nil
+	}
+	var out []*Term
+	seen := map[*Term]bool{}
+	for _, h := range pc {
+		if h.Op != "forall" || len(h.Bound) != 1 || h.Bound[0].Sort != SInt || !strings.HasPrefix(h.Bound[0].Name, "p?c") {
+			continue
+		}
+		for _, p := range ptrs {
+			inst := Subst(h.Args[0], map[*Term]*Term{h.Bound[0]: p})
+			if !seen[inst] && !inst.IsTrue() && len(out) < 96 {
+				seen[inst] = true
+				out = append(out, inst)
+			}
+			out = append(out, instInner(inst, idx, seen, 96-len(out))...)
+		}
+	}
+	return out
+}
+
+// instInner instantiates universals nested under implications / conjunctions / disjunctions of t.
+func instInner(t *Term, idx []*Term, seen map[*Term]bool, budget int) []*Term {
+	var out []*Term
+	var walk func(x *Term, guard *Term)
+	walk = func(x *Term, guard *Term) {
+		if budget <= 0 {
+			return
+		}
+		switch x.Op {
+		case "=>":
+			walk(x.Args[1], And(guard, x.Args[0]))
+		case "and":
+			for _, a := range x.Args {
+				walk(a, guard)
+			}
+		case "or":
+			// (A and forall...) or B: instantiate under the disjunct's own conjuncts
+			for _, a := range x.Args {
+				if a.Op == "and" {
+					var rest []*Term
+					var qs []*Term
+					for _, c := range a.Args {
+						if c.Op == "forall" {
+							qs = append(qs, c)
+						} else {
+							rest = append(rest, c)
+						}
+					}
+					for _, q := range qs {
+						walk(q, And(guard, And(rest...)))
+					}
+				}
+			}
+		case "forall":
+			if len(x.Bound) == 1 && x.Bound[0].Sort == SInt {
+				for _, k := range idx {
+					if k.Sort != SInt {
+						continue
+					}
+					i2 := Implies(guard, Subst(x.Args[0], map[*Term]*Term{x.Bound[0]: k}))
+					if !seen[i2] && !i2.IsTrue() && budget > 0 {
+						seen[i2] = true
+						out = append(out, i2)
+						budget--
+					}
+				}
+			}
+		}
+	}
+	walk(t, tTrue)
 	return out
 }
 
